@@ -111,6 +111,7 @@ func verifC03Map(cs []verifC03Conf) map[string]*conf.Path {
 }
 
 func verifC03Init() {
+	verifC03PRealRand = crand.Reader
 	crand.Reader = verifC03Zero{} // auth.LogAndDelayError draws its 0–4 s pause from here: 0 ns
 	dir, err := os.MkdirTemp("", "verifc03")
 	if err != nil {
@@ -258,7 +259,10 @@ func verifC03Exec(op string) string {
 		}
 		verifC03PM.initialize()
 		verifC03Cur = cs
+		verifC03PUsers = verifC03PParseUsers(us)
 		return "ok"
+	case "proto":
+		return verifC03PExec(f)
 	case "reload":
 		cs, _ := verifC03Split(f[1:])
 		verifC03PM.ReloadPathConfs(verifC03Map(cs))
@@ -463,6 +467,12 @@ func verifC03Gen(r *verifutil.Rand, i int, thorough bool) []string {
 		return verifC03Conf{}, false
 	}
 
+	// protocol side: a few real client connections against the real rtsp/rtmp/srt servers (recording path
+	// manager answering from this history's permission table)
+	if i%4 == 0 {
+		ops = append(ops, verifC03PGen(r.Fork(), us, 2+r.Intn(2))...)
+	}
+
 	n := 6 + r.Intn(10)
 	if thorough {
 		n = 10 + r.Intn(40)
@@ -524,6 +534,9 @@ func TestVerifC03(t *testing.T) {
 		if verifC03PM != nil {
 			verifC03PM.close()
 		}
+		if verifC03PW != nil {
+			verifC03PW.close()
+		}
 	}()
 	verifutil.Main(t, &verifutil.Harness{
 		ID: "C03", Exec: verifC03Exec, Gen: verifC03Gen, Quick: 1000, Thorough: 20000,
@@ -536,6 +549,17 @@ func TestVerifC03(t *testing.T) {
 			}
 			if o == "reset" || o == "reload" {
 				return o
+			}
+			if o == "proto" {
+				f := strings.Fields(op)
+				att := "noattach"
+				for _, e := range strings.FieldsFunc(strings.Join(a[1:], ""), func(c rune) bool { return c == ';' || c == '|' }) {
+					p := strings.Split(e, ":")
+					if len(p) == 7 && (p[0] == "p" || p[0] == "r") && p[5] == "1" {
+						att = "attach"
+					}
+				}
+				return fmt.Sprintf("proto/%s/%s/expect%s/%s/%s", f[1], f[2], f[7], k, att)
 			}
 			f := strings.Fields(op)
 			skip := f[len(f)-7]
